@@ -157,6 +157,23 @@ pub fn well_formed(win: bool, b: &[u8]) -> bool {
     spec::names_valid(&cs, win) && (!win || spec::win_complete_prefix(b) || spec::win_stable_prefix(b))
 }
 
+/// Well-formed in the WIDE sense: the prefix as in `well_formed`, but names restricted only as far as the clauses about
+/// joining and re-building need — a name must read as itself when it is pushed on its own: no separator of either kind
+/// inside it (possible under the exact verbatim marker) and no `X:` at its start (a drive).  Bytes that are merely
+/// forbidden in file names (`? * " < > | :` elsewhere, NUL) do not matter to parsing or joining, so paths with such
+/// names are inside those clauses too.
+pub fn well_formed_wide(win: bool, b: &[u8]) -> bool {
+    if !win {
+        return true;
+    }
+    let cs = spec_comps(win, b);
+    let names_ok = cs.iter().all(|c| match c {
+        SComp::Normal(n) => !n.iter().any(|x| spec::any_sep(*x)) && !(n.len() >= 2 && n[0].is_ascii_alphabetic() && n[1] == b':'),
+        _ => true,
+    });
+    names_ok && (spec::win_complete_prefix(b) || spec::win_stable_prefix(b))
+}
+
 /// K3: no prefix, begins with two separator bytes (the UNC introducer hazard)
 pub fn k3_shape(win: bool, b: &[u8]) -> bool {
     win && b.len() >= 2 && spec::any_sep(b[0]) && spec::any_sep(b[1]) && spec::win_prefix(b).is_none()
